@@ -1,11 +1,11 @@
 \* C15 thorough: 2 wallet transactions, up to 4 blocks above the birthday block, reorg depth <= 2,
-\* at most 7 blocks ever created; reorgs keep the block right above the birthday block (MinKeep = 0).
+\* at most 8 blocks ever created; reorgs keep the block right above the birthday block (MinKeep = 0).
 CONSTANTS
   Txs = {1, 2}
   MaxLen = 4
   MaxDepth = 2
   MinKeep = 0
-  MaxBlocks = 7
+  MaxBlocks = 8
   Acts = {"StartDuringReorg", "Shrink"}
   MaxHist = 40
   FullHist = FALSE
